@@ -3,7 +3,7 @@ use std::marker::PhantomData;
 #[allow(unused_imports)] use any_vec::traits::{Cloneable, None as TNone};
 #[allow(unused_imports)] use anyvec_mc::elem::*;
 use anyvec_mc::exec::{Cfg, Runner};
-#[allow(unused_imports)] use anyvec_mc::track::{Track, TrackFixed, TrackTight};
+#[allow(unused_imports)] use anyvec_mc::track::{Track, TrackFence, TrackFixed, TrackTight};
 use anyvec_mc::Entry;
 #[cfg(feature = "alloc")] #[allow(unused_imports)] use any_vec::mem::Heap;
 
@@ -19,6 +19,10 @@ fn cfgs() -> Vec<Entry> {
     c!(v, false,"general",H2D,Track,dyn Cloneable);
     c!(v, false,"general",X24D,Track,dyn Cloneable);
     c!(v, false,"general",D12D,Track,dyn Cloneable);
+    c!(v, false,"general",X24D,TrackFence<false>,dyn Cloneable);
+    c!(v, false,"general",T3D,TrackFence<false>,dyn Cloneable);
+    c!(v, false,"general",A32D,TrackFence<true>,dyn Cloneable);
+    c!(v, false,"general",L160D,TrackFence<false>,dyn TNone);
     v
 }
 fn main() { anyvec_mc::main_with(cfgs) }
